@@ -15,9 +15,13 @@ import (
 // otherwise exactly one error response and no handler output. Tokens: all strings of <= 3 bytes.
 func Harness_C25_token() {
 	zz.MustCover("(*github.com/honeycombio/refinery/route.Router).queryTokenChecker$1")
-	zz.Bound("token_len_max", 3)
-	cfgTok := zz.NondetString("configured", 3)
-	reqTok := zz.NondetString("presented", 3)
+	maxTok := 3
+	if zz.Thorough() {
+		maxTok = 5
+	}
+	zz.Bound("token_len_max", maxTok)
+	cfgTok := zz.NondetString("configured", maxTok)
+	reqTok := zz.NondetString("presented", maxTok)
 	present := zz.NondetBool("headerPresent")
 	r := &Router{Config: &config.MockConfig{QueryAuthToken: cfgTok}, Logger: &logger.NullLogger{}}
 	ran := 0
